@@ -31,6 +31,8 @@ pub trait TemplateRegistry: Sized {
         // register common filters
         tera.register_filter("escape_js", escape_js_filter);
         tera.register_filter("add_types_prefix", add_types_prefix_filter);
+        tera.register_filter("property_key", property_key_filter);
+        tera.register_filter("property_access", property_access_filter);
 
         // register registry specific templates
         Self::register_templates(&mut tera)?;
@@ -48,18 +50,59 @@ pub trait TemplateRegistry: Sized {
     fn register_filters(tera: &mut Tera);
 }
 
+/// Escape a string for use between double quotes in JS/TS source
+fn escape_js(s: &str) -> String {
+    s.replace('\\', "\\\\") // Backslash must be first
+        .replace('"', "\\\"") // Escape double quotes
+        .replace('\n', "\\n") // Escape newlines
+        .replace('\r', "\\r") // Escape carriage returns
+        .replace('\t', "\\t") // Escape tabs
+}
+
 /// Filter to escape problematic JS characters
 fn escape_js_filter(value: &Value, _args: &HashMap<String, Value>) -> tera::Result<Value> {
     if let Some(s) = value.as_str() {
-        let escaped = s
-            .replace('\\', "\\\\") // Backslash must be first
-            .replace('"', "\\\"") // Escape double quotes
-            .replace('\n', "\\n") // Escape newlines
-            .replace('\r', "\\r") // Escape carriage returns
-            .replace('\t', "\\t"); // Escape tabs
-        Ok(Value::String(escaped))
+        Ok(Value::String(escape_js(s)))
     } else {
         Err("escape_js filter expects a string".into())
+    }
+}
+
+/// Whether a serialized name can be written as a bare property name / after a dot
+fn is_ts_identifier(name: &str) -> bool {
+    let mut chars = name.chars();
+    chars
+        .next()
+        .is_some_and(|c| c.is_alphabetic() || c == '_' || c == '$')
+        && chars.all(|c| c.is_alphanumeric() || c == '_' || c == '$')
+}
+
+/// Filter for property keys in interfaces, object types and z.object shapes:
+/// `userId` stays as it is, `user-id` (serde kebab-case, explicit renames) becomes `"user-id"`
+/// Usage: {{ field.serializedName | property_key }}: ...
+fn property_key_filter(value: &Value, _args: &HashMap<String, Value>) -> tera::Result<Value> {
+    if let Some(key) = value.as_str() {
+        if is_ts_identifier(key) {
+            Ok(Value::String(key.to_string()))
+        } else {
+            Ok(Value::String(format!("\"{}\"", escape_js(key))))
+        }
+    } else {
+        Err("property_key filter expects a string".into())
+    }
+}
+
+/// Filter for member access: `.userId`, or `["user-id"]` when the name is not an identifier
+/// Usage: params{{ channel.serializedParameterName | property_access }}
+fn property_access_filter(value: &Value, _args: &HashMap<String, Value>) -> tera::Result<Value> {
+    if let Some(key) = value.as_str() {
+        if is_ts_identifier(key) {
+            Ok(Value::String(format!(".{}", key)))
+        } else {
+            Ok(Value::String(format!("[\"{}\"]", escape_js(key))))
+        }
+    } else {
+        Err("property_access filter expects a string".into())
     }
 }
 
